@@ -43,3 +43,22 @@ print("#7 C08 empty supported_versions ->",
       SupportedVersionsExtension().parse(Parser(bytearray())).versions,
       "; empty server key_share ->",
       ServerKeyShareExtension().parse(Parser(bytearray())).server_share)
+
+# 12  C08: unknown certificate signature OID -> KeyError out of the parser
+from tlslite.x509 import X509
+from tlslite.utils.pem import dePem
+der = dePem(open('/repo/tests/serverX509Cert.pem').read(), "CERTIFICATE")
+oid = bytearray(b'\x06\x09\x2a\x86\x48\x86\xf7\x0d\x01\x01')
+pos = der.find(oid)
+mutated = bytearray(der)
+mutated[pos + len(oid)] = 0x7f          # last arc of the signature algorithm OID
+while mutated.find(oid, pos + 1) != -1:  # both occurrences (tbs + outer)
+    pos = mutated.find(oid, pos + 1)
+    if mutated[pos + len(oid)] in (0x05, 0x0b, 0x0c, 0x0d, 0x0e):
+        mutated[pos + len(oid)] = 0x7f
+try:
+    X509().parseBinary(mutated)
+    print("#12 C08 parsed?!")
+except BaseException as exc:
+    print("#12 C08 certificate with unknown signature OID raises:",
+          type(exc).__name__)
